@@ -250,7 +250,7 @@ func (g *Gen) RandomCase(lookalike bool, withTrailer bool) *Case {
 		MsgType: ToB(g.pick([]string{"A", "0", "D", "8", "AE", "XY1"})),
 		Header:  g.populate(hdrT, p, look, false), Body: g.populate(bodyT, p, look, false), Trailer: g.populate(trlT, p, look, false)}
 	m.Norm()
-	c := &Case{ID: g.id("g"), M: m, Lookalike: lookalike}
+	c := &Case{ID: g.id("g"), M: m, Lookalike: lookalike, Late: g.R.Intn(3) == 0}
 	var all []string
 	tagsOf(m.Header, &all)
 	tagsOf(m.Body, &all)
@@ -404,7 +404,12 @@ func (g *Gen) RawInputs() []*RawObs {
 					b = append(b, '=')
 				}
 				if g.R.Intn(6) > 0 {
-					b = append(b, []byte(strconv.Itoa(g.R.Intn(4)))...)
+					if g.R.Intn(5) == 0 { // numbers a peer can put into count / length / sequence fields
+						b = append(b, []byte([]string{"-1", "-2147483648", "9223372036854775807", "4611686018427387904", "99999999999999999999",
+							"+2", "00", "1e3", "0x10", "-0", "2147483648", "-9223372036854775808", "4294967296"}[g.R.Intn(13)])...)
+					} else {
+						b = append(b, []byte(strconv.Itoa(g.R.Intn(4)))...)
+					}
 				}
 				if g.R.Intn(8) > 0 {
 					b = append(b, 1)
